@@ -134,7 +134,7 @@ def shrink_violation(mod, first: dict, budget_execs=250, budget_s=45.0):
 # worker
 # ------------------------------------------------------------------------------------------
 
-def _worker_chunk(pid: str, base_seed: int, cases: list, do_shrink: bool, max_viol: int):
+def _worker_chunk(pid: str, base_seed: int, cases: list, do_shrink: bool, max_viol: int, known_sigs=()):
     faulthandler.enable()
     mod = load_prop(pid)
     agg = {
@@ -168,7 +168,12 @@ def _worker_chunk(pid: str, base_seed: int, cases: list, do_shrink: bool, max_vi
                                        "profile": core.PROFILES[o["profile"]],
                                        "faults": o["faults"]})
         elif o["status"] == "violation":
-            if len(agg["violations"]) < max_viol:
+            if o["signature"] in known_sigs:
+                # a listed known finding: report, never shrink, never stop the batch for it
+                agg["violations"].append({"index": idx, "seed": seed, "klass": o["klass"],
+                                          "signature": o["signature"], "message": o["message"][:300],
+                                          "params": params, "tape": None, "known": True})
+            elif len([v for v in agg["violations"] if not v.get("known")]) < max_viol:
                 if do_shrink:
                     o = shrink_violation(mod, o)
                 o["index"] = idx
@@ -190,6 +195,8 @@ def _worker_chunk(pid: str, base_seed: int, cases: list, do_shrink: bool, max_vi
 
 def load_known():
     out = []
+    if os.environ.get("SFSIM_NO_KNOWN"):
+        return out
     if os.path.exists(KNOWN_FILE):
         for line in open(KNOWN_FILE):
             line = line.strip()
@@ -238,6 +245,7 @@ def run_batch(pid: str, tier: str, base_seed: int, workers: int | None = None,
     }
     budget = cfg.get("budget_s", 60)
     stopped_early = False
+    known_sigs = tuple(k["signature"] for k in load_known() if k.get("status") == "open" and k["property"] == pid)
     ctx = multiprocessing.get_context("fork")
     sys.stdout.flush()
     ex = ProcessPoolExecutor(max_workers=workers, mp_context=ctx)
@@ -256,7 +264,7 @@ def run_batch(pid: str, tier: str, base_seed: int, workers: int | None = None,
                 c = next(it, None)
                 if c is None:
                     return
-                f = ex.submit(_worker_chunk, pid, base_seed, c, True, max_viol)
+                f = ex.submit(_worker_chunk, pid, base_seed, c, True, max_viol, known_sigs)
                 pending[f] = c
 
         submit_more()
